@@ -87,6 +87,12 @@ def mk_type(rng, kind):
     # dynamic names
     parts = [rng.choice(FRAGMENTS[rng.choice(list(FRAGMENTS))]) for _ in range(rng.randint(1, 3))]
     nm = "".join(parts) + rng.choice(["Error", "Exception", "", "Failure"])
+    if rng.random() < 0.3:
+        # a class defined INSIDE another class or a function whose name holds a fragment of its own (AuthClient.Error,
+        # fetch_with_timeout.<locals>.OddballError): the documented heuristic reads the class name, not where it was defined
+        outer = rng.choice(FRAGMENTS[rng.choice(list(FRAGMENTS))]) + rng.choice(["Client", "Pool", "Session"])
+        qual = rng.choice([f"{outer}.{nm}", f"{outer.lower()}_call.<locals>.{nm}"])
+        return type(nm, (Exception,), {"__qualname__": qual}), None, f"nested {qual}"
     return type(nm, (Exception,), {}), None, f"dynamic {nm}"
 
 
